@@ -105,14 +105,19 @@ PROPERTIES = {
                   'verification, labelled bounded)',
     ),
     'C04': dict(
-        level='other', category='other',
-        explanation='BOUNDED (not proved): contracts of this property are checked at run time on the real code by a '
-                    'systematic enumeration in virtual time / under forced interleavings (scenarios/props/c04.py; bounds '
-                    'in its summary line). The deductive contracts for batcher own outcome are not discharged yet.',
-        assumptions=['bounded enumeration only: nothing outside the stated bounds is covered'],
-        not_decided=['everything beyond the bounds'],
-        technique='bounded run-time contract checking on the real code (stand-in for contract-based deductive '
-                  'verification, labelled bounded)',
+        level='proof', category='proof', always_standin=True,
+        explanation='_process_batch against an ARBITRARY stream of the batch function (any keys incl. unknown and '
+                    'repeated, any order, any values, then end or Exception), pointwise for an arbitrary task of the '
+                    'batch: loop invariant "registered => pending; answered => holds the FIRST element yielded for its own '
+                    'key (Exception instance -> exception, else result)"; at every exit every future of the batch is done, '
+                    'with its own key\'s element or with the batch function\'s exception / KeyError of an unknown or '
+                    'repeated key / ValueError missing, never another key\'s value; nothing escapes the batch task; '
+                    '__call__ returns/raises exactly the outcome of the future registered under its key',
+        assumptions=['keys of a batch pairwise distinct (carried by C11\'s entry invariant) and futures distinct',
+                     'Future.set_result/set_exception/done stubs; exception values Future.set_exception accepts',
+                     'a batch function raising a non-Exception BaseException is outside the listed behaviours',
+                     'completion of the CALLER needs the loop to schedule it (liveness): bounded stand-in'],
+        not_decided=['"every call completes" as termination: each future is proved DONE at the batch task\'s exit'],
     ),
     'C07': dict(
         level='other', category='other',
@@ -135,34 +140,46 @@ PROPERTIES = {
                   'verification, labelled bounded)',
     ),
     'C09': dict(
-        level='other', category='other',
-        explanation='BOUNDED (not proved): contracts of this property are checked at run time on the real code by a '
-                    'systematic enumeration in virtual time / under forced interleavings (scenarios/props/c09.py; bounds '
-                    'in its summary line). The deductive contracts for cancel isolation in the batcher are not discharged yet.',
-        assumptions=['bounded enumeration only: nothing outside the stated bounds is covered'],
-        not_decided=['everything beyond the bounds'],
-        technique='bounded run-time contract checking on the real code (stand-in for contract-based deductive '
-                  'verification, labelled bounded)',
+        level='proof', category='proof', always_standin=True,
+        explanation='with cancellation of callers in the rely: __call__ awaits the per-key future only through shield '
+                    '(both awaits), so cancelling a caller changes no future another caller awaits; a cancelled owner '
+                    'leaves exactly one done-callback that forgets the entry once answered (entry invariant inv_k at '
+                    'every suspension and exit); _process_batch with futures possibly done/cancelled by the '
+                    'environment at every suspension: every set_* establishes its precondition, no InvalidStateError '
+                    'reaches a bystander, nothing escapes the batch task, every other future still gets its own outcome',
+        assumptions=['Task cancellation / shield stubs (Appendix B of DESIGN)'],
+        not_decided=['"the batcher keeps serving later calls": processing loop untouched by cancellation (frame), '
+                     'exercised by the bounded stand-in'],
     ),
     'C10': dict(
-        level='other', category='other',
-        explanation='BOUNDED (not proved): contracts of this property are checked at run time on the real code by a '
-                    'systematic enumeration in virtual time / under forced interleavings (scenarios/props/c10.py; bounds '
-                    'in its summary line). The deductive contracts for batch limits, FIFO, timeout are not discharged yet.',
-        assumptions=['bounded enumeration only: nothing outside the stated bounds is covered'],
-        not_decided=['everything beyond the bounds'],
-        technique='bounded run-time contract checking on the real code (stand-in for contract-based deductive '
-                  'verification, labelled bounded)',
+        level='proof', category='proof', always_standin=True,
+        explanation='_get_next_batch with a prophecy ghost of the arrival sequence and a ghost clock: loop invariant '
+                    '"tasks = the contiguous FIFO block dequeued so far, |tasks| <= largest limit in force, last member '
+                    'arrived by now"; result non-empty, <= max_batch_size (also when mutated at suspensions), next block '
+                    'in arrival order; leaves only when full or after exactly batch_timeout of silence measured from the '
+                    'moment the last member joined; every iteration dequeues or waits (no spinning); return [] only on a '
+                    'closed loop.  _processing_loop spawns exactly one background task per assembled batch on the '
+                    'batcher\'s loop and never awaits it.  _process_batch iterates the batch function inside '
+                    '`async with semaphore` (released as often as acquired) with the (key,arg) list in batch order; '
+                    '__init__ creates Semaphore(max_concurrent_batches) and an unbounded FIFO queue',
+        assumptions=['asyncio.Queue FIFO; wait_for(q.get(), T) completes in the step the getter resolves (3.12); '
+                     'list.extend(islice(iter(get_nowait, sentinel), n)) keeps what it appended before QueueEmpty',
+                     'semaphore: at most `value` holders (stub); computation takes no ghost time'],
+        not_decided=['"never more than max_concurrent_batches executions": follows from the semaphore stub and the '
+                     'scope obligation; the occupancy itself is measured only by the bounded stand-in'],
     ),
     'C11': dict(
-        level='other', category='other',
-        explanation='BOUNDED (not proved): contracts of this property are checked at run time on the real code by a '
-                    'systematic enumeration in virtual time / under forced interleavings (scenarios/props/c11.py; bounds '
-                    'in its summary line). The deductive contracts for retention window are not discharged yet.',
-        assumptions=['bounded enumeration only: nothing outside the stated bounds is covered'],
-        not_decided=['everything beyond the bounds'],
-        technique='bounded run-time contract checking on the real code (stand-in for contract-based deductive '
-                  'verification, labelled bounded)',
+        level='proof', category='proof', always_standin=True,
+        explanation='__call__ / _forget pointwise for the call\'s key with ghost accounting of one retention entry '
+                    '(pend / owed / tmr) and entry invariant inv_k proved at every suspension and exit: a key with an entry '
+                    'enqueues nothing, evicts nothing and awaits that entry\'s future; a key without entry creates exactly '
+                    'one future, registers it, enqueues exactly one (key,arg,future); the owner forgets exactly once '
+                    '(immediately iff retention_timeout = 0, else one call_later(retention_timeout, pop, key)); default '
+                    'key is str(arg); the retention cache is only subscripted with the call\'s key',
+        assumptions=['eviction timers fire at their deadline (ghost clock); no caller cancelled for C11 itself',
+                     'at most one unanswered tuple per key follows from inv_k (pend => entry present) by induction over '
+                     'the actions (hand lemma over the proved per-action obligations)'],
+        not_decided=['"a call after the window never receives the old result" as a timed statement: bounded stand-in'],
     ),
     'C15': dict(
         level='proof', category='proof', always_standin=True,
